@@ -130,6 +130,11 @@ def gen_instance(rng, profile=None):
             pas = rng.choice([0, 1, tinfo["capacity"] * need - rng.randrange(0, 10), tinfo["capacity"] * need])
             pas = max(0, pas)
             seated = rng.choice([0, 1, min(pas, tinfo["seats"] * need), tinfo["seats"] * max(1, need - 1)])
+            if rng.random() < 0.15 and pas > 0 and pas % tinfo["capacity"] == 0:
+                # a full train whose seated demand is just above a multiple of the seats with the SAME integer quotient:
+                # passengers / capacity == seated / seats although the seats need one vehicle more (seeded C07i)
+                q = pas // tinfo["capacity"]
+                seated = min(pas, q * tinfo["seats"] + rng.randrange(1, tinfo["seats"]))
             if p.get("seat_dominated") and rng.random() < 0.6:
                 # the seat requirement needs more coupled vehicles than the passenger requirement
                 pas = max(pas, tinfo["seats"] * (need + 1))
